@@ -121,7 +121,7 @@ theorem saved_equiv_ideal {W : Type} (n : Nat) (body : List Stmt) (cfg : Cfg W) 
 def exBody : List Stmt := [.assign .eq (.var 0) ⟨false, false, [], 0⟩, .ret true ⟨false, false, [], 0⟩,
   .assign .eq (.var 1) ⟨false, false, [0], 0⟩, .assign .eq .none ⟨true, true, [1], 0⟩]
 /-- the world is a step counter -/
-def exCfg : Cfg Nat := ⟨fun _ t vs => t + 7 + vs.sum, fun _ t _ => t + 1, fun _ _ _ => 1, fun a b => a + b⟩
+def exCfg : Cfg Nat := ⟨fun _ t vs => t + 7 + vs.sum, fun _ t _ => t + 1, fun _ _ _ => 1, fun _ a b => a + b⟩
 
 /-- non-vacuity: the suspensions really happen, the non-saved variable (index 1, never live
 across a suspension) is really reset in the saved run and not in the ideal run, and the logs of
@@ -197,15 +197,14 @@ theorem scratch_write_correct (v room : Nat) (out : List UInt8) (ns : Nat) (piec
     (writeGo v room out ns pieces).1.out = out ++ [UInt8.ofNat (v % 256)] :=
   writeGo_out v pieces room out ns
 
-/-- **split_independent_F3s_partial.** For straight-line programs whose only I/O operations are
+/-- **split_independent_straightline.** For straight-line programs whose only I/O operations are
 the suspending built-ins (`read_uXXYe?` for the rows of `readMethods`, `skip?`, `skip?(n: 1)`,
 `write_u8?`), any two partitions of the source bytes into chunks and of the destination capacity
 into pieces give the same final status, observable state (registers), output bytes and consumed
-count — namely those of the one-shot meaning `runSeq`.
-PARTIAL: straight-line programs only (no branches, loops, nested coroutine calls); for the full
-fragment F3s, and for decoders that peek / test `length()` for fast paths, split-independence is
-sampled by harness/cmd/c05 sections C and D. -/
-theorem split_independent_F3s_partial (prog : List POp) (hok : ∀ op ∈ prog, op.OK)
+count — namely those of the one-shot meaning `runSeq`. (This is the `prog` op of the driver, run
+next to the compiled probe coroutines. Programs WITH control flow, run as the generated C runs
+them: `split_independent_F3s` in Props/C05Split.lean.) -/
+theorem split_independent_straightline (prog : List POp) (hok : ∀ op ∈ prog, op.OK)
     (src1 dst1 src2 dst2 : List Nat) (bs : List UInt8) :
     obs (runProgram prog src1 dst1 bs) = obs (runProgram prog src2 dst2 bs) := by
   rw [runProgram_eq_runSeq prog hok, runProgram_eq_runSeq prog hok]
